@@ -94,10 +94,27 @@ theorem jitter_wrap_invariant (rate : Nat) (elapsed a b k1 k2 : Int) :
 
 /-- ★ T6 `lsr_dlsr`: over any history every report carries, for the most recent sender report
 `(ntp, t)` delivered to the stream, `LSR = (ntp >> 16) mod 2^32` and
-`DLSR = uint32(float64 seconds(now − t) · 65536)` (binary64-exact), and `(0, 0)` before any. -/
+`DLSR = uint32(float64 seconds(max(now − t, 0)) · 65536)` (binary64-exact; 0 for a sender report stamped after the report instant: F-43), and `(0, 0)` before any. -/
 theorem lsr_dlsr (ssrc rate : Nat) (evs : List Ev) :
     (runEv (new ssrc rate) evs).map (fun r => (r.lsr, r.delay)) = lsrReports none evs :=
   lsr_run (new ssrc rate) none evs ⟨rfl, rfl⟩
+
+/-- ★ T6 `dlsr_early_zero` (F-43): a sender report stamped AFTER the instant the report is generated for (the tick
+took its time before it walked the streams; the sender report was read meanwhile) arrived "just now": the delay is 0,
+not `uint32` of a negative number of seconds (18 hours on amd64 before the repair). -/
+theorem dlsr_early_zero (ntp : Nat) (t now : Int) (h : now ≤ t) (es : List Ev) :
+    lsrReports (some (ntp, t)) (.report now :: es) = ((ntp / 65536) % M32, 0) :: lsrReports (some (ntp, t)) es := by
+  have hm : max (now - t) 0 = 0 := by omega
+  simp only [lsrReports, hm]
+  have : toUint32 (mul (seconds 0) 65536) = 0 := by decide +kernel
+  rw [this]
+
+/-- ★ T6 `dlsr_late_unchanged`: for a sender report stamped before the report instant the clamp changes nothing. -/
+theorem dlsr_late_unchanged (ntp : Nat) (t now : Int) (h : t ≤ now) (es : List Ev) :
+    lsrReports (some (ntp, t)) (.report now :: es) =
+      ((ntp / 65536) % M32, toUint32 (mul (seconds (now - t)) 65536)) :: lsrReports (some (ntp, t)) es := by
+  have hm : max (now - t) 0 = now - t := by omega
+  simp only [lsrReports, hm]
 
 /-- T6, dispatch: a sender report is applied only to the stream bound for its SSRC. -/
 theorem sr_foreign_ignored (ss : Streams) (ssrc : Nat) (f : Stream → Stream) (s : Stream)
